@@ -7,7 +7,7 @@ namespace LyModel.Range
 open LyModel
 
 /-- parts are well-formed and ascending (RFC 7950 §9.2.4 also wants them disjoint; two neighbours may share an
-end point here because that is all `lys_compile_type_range` guarantees for a stand-alone `max` part, finding F52) -/
+end point here because that is all `lys_compile_type_range` guarantees for a stand-alone `max` part, finding F76) -/
 def Ascending : List Part → Prop
   | [] => True
   | [p] => p.min ≤ p.max
